@@ -134,7 +134,7 @@ func matrix() []fw.Case {
 		b := &ownh.B{}
 		a := b.Env("ok", []int{1}, ownh.OKT(1, 1), ownh.P(), ownh.P())
 		c := b.Env("ok", []int{3}, ownh.OKT(11, 1), ownh.OKT(12, 2), ownh.P())
-		b.Round(ownh.New(a), ownh.New(c)).Round(ownh.Ctl(c, "START"), ownh.Destroy(a, false, false, false), ownh.Destroy(a, true, false, true)).
+		b.Round(ownh.New(a), ownh.New(c)).Round(ownh.Ctl(c, "START"), ownh.Destroy(a, true, false, false), ownh.Destroy(a, true, false, false)).
 			Round(ownh.Destroy(c, false, false, false)).Round(ownh.Destroy(c, false, true, false))
 		add("destroy-concurrent", b)
 	}
@@ -158,8 +158,8 @@ func genCase(r *rng.R) fw.Case {
 		}
 		var ops []*sx.Node
 		var newHere []int
-		// DestroyEnvironment's STOP / RESET / teardown are separate critical sections: a control request on the
-		// same environment can slip in between; such pairs are not generated (two destroys of one environment are)
+		// DestroyEnvironment's STOP / RESET / teardown are separate critical sections: another request on the
+		// same environment can slip in between; the model destroys in one step, so a round names an environment once
 		touched := map[int]string{}
 		for j := 0; j < n; j++ {
 			switch {
@@ -173,7 +173,7 @@ func genCase(r *rng.R) fw.Case {
 				k := rng.Pick(r, created)
 				kind := r.N(10)
 				isDestroy := (kind >= 3 && kind <= 7)
-				if prev, ok := touched[k]; ok && !(prev == "destroy" && isDestroy) {
+				if _, ok := touched[k]; ok {
 					ops = append(ops, ownh.Cleanup())
 					continue
 				}
